@@ -18,6 +18,8 @@ package pseudonymization
 
 import (
 	"encoding/binary"
+	"errors"
+
 	"github.com/cossacklabs/acra/pseudonymization/common"
 )
 
@@ -32,11 +34,20 @@ func encodeInt64(v int64) []byte {
 	return d
 }
 
+// ErrInvalidIntegerLength used to show that stored value is too short to be an integer of the requested TokenType
+var ErrInvalidIntegerLength = errors.New("stored value has invalid length for integer TokenType")
+
 func decodeInt32(data []byte) (int32, error) {
+	if len(data) < 4 {
+		return 0, ErrInvalidIntegerLength
+	}
 	return int32(binary.LittleEndian.Uint32(data)), nil
 }
 
 func decodeInt64(data []byte) (int64, error) {
+	if len(data) < 8 {
+		return 0, ErrInvalidIntegerLength
+	}
 	return int64(binary.LittleEndian.Uint64(data)), nil
 }
 
